@@ -1,5 +1,6 @@
 import CollectionsC.Proofs.ListHistory
 import CollectionsC.Proofs.ListAlloc
+import CollectionsC.Proofs.ListContent
 import CollectionsC.Proofs.ListTraverse
 /-! # C04 — CC_List and CC_SList behave as ideal sequences, including bulk operations
 
@@ -27,7 +28,9 @@ Documented preconditions:
 * the pair models two **distinct** list objects (`add_all(l, l)` / `splice(l, l)` are outside the model);
 * `splice`/`splice_at` move the nodes themselves, so a history uses them only between lists on the
   same allocator triple (`Compat`; across triples the destination later releases foreign blocks —
-  recorded as a known finding, witness `corpus/list/defect_splice_two_triples.ops`). -/
+  recorded as a known finding, witness `corpus/list/defect_splice_two_triples.ops`).  `Compat` restricts only the
+  **ledger** statements: statuses, out-values, contents and the invariant are proved for every history, splices across
+  triples included, from any ledger (`dlist_history_content`, `slist_history_content`; no `PairOk`, no `Compat`). -/
 namespace CC.Properties.C04
 open CC CC.Chain
 open CC.Spec
@@ -110,6 +113,48 @@ theorem slist_history_refines (P : Params) (ops : List Op) (s : Chain × Chain) 
     (SList.run P s ops m).2.2.fault = m.fault ∧ (SList.run P s ops m).2.2.sched = [] := by
   rw [slist_run_eq]
   exact run_exact (slist_step_refines P) ops s m h hc hs
+
+/-- **content part of one step, unconditionally**: for states satisfying the invariant — whatever the ledger holds and
+whatever triples the two lists are on, `splice`/`splice_at` across triples included — the step keeps the invariant, a
+refused step changes nothing, and otherwise status, out-value, out-sequence and both contents are those of the ideal step -/
+theorem dlist_step_content (P : Params) (s : Chain × Chain) (op : Op) (m : Mem) (h1 : s.1.Inv) (h2 : s.2.Inv) :
+    StepContent true P s op (DList.step P s op m) :=
+  stepContent_of_refines (dlist_step_refines P)
+    (fun s op m1 m2 i1 i2 hs => by
+      have e : s = (ofList s.1.triple s.1.abs, ofList s.2.triple s.2.abs) := by rw [← i1.eq, ← i2.eq]
+      rw [e]
+      exact ⟨(DList.step_indep P _ _ _ _ op m1 m2 hs).1, (DList.step_indep P _ _ _ _ op m1 m2 hs).2.1⟩)
+    (dlist_splice_content P) s op m h1 h2
+
+theorem slist_step_content (P : Params) (s : Chain × Chain) (op : Op) (m : Mem) (h1 : s.1.Inv) (h2 : s.2.Inv) :
+    StepContent false P s op (SList.step P s op m) :=
+  stepContent_of_refines (slist_step_refines P)
+    (fun s op m1 m2 i1 i2 hs => by
+      have e : s = (ofList s.1.triple s.1.abs, ofList s.2.triple s.2.abs) := by rw [← i1.eq, ← i2.eq]
+      rw [e]
+      exact ⟨(SList.step_indep P _ _ _ _ op m1 m2 hs).1, (SList.step_indep P _ _ _ _ op m1 m2 hs).2.1⟩)
+    (slist_splice_content P) s op m h1 h2
+
+/-- **C04, all histories, content part without `Compat` and without ledger hypothesis**: every history — including
+`splice`/`splice_at` between lists on different allocator triples — from any pair of states satisfying the invariant and
+any ledger yields the outputs and final contents of the ideal lists on which exactly the refused operations did not
+happen, and both lists satisfy the invariant at the end.  (Only the ledger/fault conjuncts of
+`dlist_history_refines_skipping` need `PairOk` and `Compat`.) -/
+theorem dlist_history_content (P : Params) (ops : List Op) (s : Chain × Chain) (m : Mem) (h1 : s.1.Inv) (h2 : s.2.Inv) :
+    (DList.run P s ops m).1 = (LSeq.runSkipping true P (s.1.abs, s.2.abs) ops ((DList.run P s ops m).1.map (·.st))).1 ∧
+    ((DList.run P s ops m).2.1.1.abs, (DList.run P s ops m).2.1.2.abs) =
+      (LSeq.runSkipping true P (s.1.abs, s.2.abs) ops ((DList.run P s ops m).1.map (·.st))).2 ∧
+    (DList.run P s ops m).2.1.1.Inv ∧ (DList.run P s ops m).2.1.2.Inv := by
+  rw [dlist_run_eq]
+  exact run_content (dlist_step_content P) ops s m h1 h2
+
+theorem slist_history_content (P : Params) (ops : List Op) (s : Chain × Chain) (m : Mem) (h1 : s.1.Inv) (h2 : s.2.Inv) :
+    (SList.run P s ops m).1 = (LSeq.runSkipping false P (s.1.abs, s.2.abs) ops ((SList.run P s ops m).1.map (·.st))).1 ∧
+    ((SList.run P s ops m).2.1.1.abs, (SList.run P s ops m).2.1.2.abs) =
+      (LSeq.runSkipping false P (s.1.abs, s.2.abs) ops ((SList.run P s ops m).1.map (·.st))).2 ∧
+    (SList.run P s ops m).2.1.1.Inv ∧ (SList.run P s ops m).2.1.2.Inv := by
+  rw [slist_run_eq]
+  exact run_content (slist_step_content P) ops s m h1 h2
 
 /-- per allocator triple the ledger moves, over a whole history, exactly with the node blocks held
 through that triple (both lists, any refusal schedule) -/
@@ -476,6 +521,17 @@ example :
         [.addAllAt 1] { live := 4, liveLibc := 3 }).2.2.live,
      (DList.run ⟨fun v => v % 2 == 0, LSeq.cmpNum⟩ (ofList .conf [3, 1, 4], ofList .libc [1, 5])
         [.addAllAt 1] { live := 4, liveLibc := 3 }).2.2.liveLibc) = (6, 3) := by
+  decide
+
+/-- a splice **across triples** (outside `Compat`): contents and outputs are still those of the ideal lists
+(`dlist_history_content`); what goes wrong is the ledger — the C-library list releases a block of the configured allocator -/
+example :
+    ((DList.run ⟨fun v => v % 2 == 0, LSeq.cmpNum⟩ (ofList .libc [1], ofList .conf [7, 8])
+        [.spliceAt 0, .removeFirst, .addLast 9] { live := 2, liveLibc := 1 }).2.1.1.abs,
+     (DList.run ⟨fun v => v % 2 == 0, LSeq.cmpNum⟩ (ofList .libc [1], ofList .conf [7, 8])
+        [.spliceAt 0, .removeFirst, .addLast 9] { live := 2, liveLibc := 1 }).1.map (·.val),
+     (DList.run ⟨fun v => v % 2 == 0, LSeq.cmpNum⟩ (ofList .libc [1], ofList .conf [7, 8])
+        [.spliceAt 0, .removeFirst, .addLast 9] { live := 2, liveLibc := 1 }).2.2.live) = ([8, 1, 9], [none, some 7, none], 2) := by
   decide
 
 end CC.Properties.C04
